@@ -255,27 +255,40 @@ def scala_scan(ctx, rep, T):
     emitting = set()
     for m in fs['matches']:
         for a in m['arms']:
-            txt = a['body']
             for nm in alias_names:
-                if f'"{nm}"' in txt:
+                if f'"{nm}"' in a['body']:
                     for v in a['variants']:
                         emitting.add(v.split('::')[-1])
+    # the function that inspects one type: the scan itself or a helper it applies to every collected type
+    cands = [g for g in ctx.astq['functions'] if g['file'].endswith('scala.rs') and g['name'] != 'format_special_type'
+             and any(re.search(r'SpecialRustType\s*::\s*U8', a['pat']) or any('SpecialRustType::U8' in v or '(SpecialRustType::U8)' in v for v in a['variants']) for m in g['matches'] for a in m['arms'])]
     leaf = set()
-    for c in [x for x in vt.walk(f['tail']) if x.get('k') == 'matches'] + [x for cl in f['calls'] for a in cl.get('args', []) for x in vt.walk(a) if x.get('k') == 'matches']:
-        for v in re.findall(r'SpecialRustType\s*::\s*(\w+)', c.get('pat', '')):
-            leaf.add(v)
+    for g in [f] + cands:
+        for c in [x for x in vt.walk(g['tail']) if x.get('k') == 'matches'] + [x for cl in g['calls'] for a in cl.get('args', []) for x in vt.walk(a) if x.get('k') == 'matches']:
+            for v in re.findall(r'SpecialRustType\s*::\s*(\w+)', c.get('pat', '')):
+                leaf.add(v)
+        for m in g['matches']:
+            for a in m['arms']:
+                if a['body'].strip() == 'true':
+                    for v in re.findall(r'SpecialRustType\s*::\s*(\w+)', a['pat']):
+                        leaf.add(v)
     missing = sorted(emitting - leaf)
-    rep.check(not missing and emitting, 'H3', 'scala:leaf-test', f'leaf test names {sorted(leaf)}', f"scala: format_special_type prints an alias name for {sorted(emitting)} but the scan only tests {sorted(leaf)}: {missing} never trigger the alias block", site)
-    # full traversal: every payload-carrying variant handled, and recursive
-    coverage.check_recursion(rep, 'H3', ctx, f, 'SpecialRustType', ['unsigned_integer_used', 'contains_unsigned', 'any'], 'scala:scan', uses_ok=True)
-    recursive = any(c.get('f') in ('unsigned_integer_used', 'contains_type') or (c.get('f') and c['f'] != 'any' and any(g['name'] == c['f'] and g.get('nested_in') for g in ctx.astq['functions'])) for c in f['calls'])
+    rep.check(not missing and bool(emitting), 'H3', 'scala:leaf-test', f'leaf test names {sorted(leaf)}', f"scala: format_special_type prints an alias name for {sorted(emitting)} but the scan only tests {sorted(leaf)}: {missing} never trigger the alias block", site)
+    scan = cands[0] if cands else f
+    callees = [scan['name'], 'unsigned_integer_used', 'any']
+    coverage.check_recursion(rep, 'H3', ctx, scan, 'SpecialRustType', callees, 'scala:scan', uses_ok=(scan is f))
     self_rec = [g for g in ctx.astq['functions'] if g['file'].endswith('scala.rs') and any(c.get('f') == g['name'] for c in g['calls'])]
     rep.check(bool(self_rec), 'H3', 'scala:scan-recursive', 'scan recurses', 'scala: the unsigned-integer scan unwraps one container level only (no recursion): `Vec<Vec<u16>>`, `Option<Vec<u8>>`, generic arguments of generic arguments print UShort/UByte with no alias block', site)
+    if scan is not f:
+        # generic arguments are traversed too
+        ga = [a for m in scan['matches'] for a in m['arms'] if any(v.endswith('RustType::Generic') for v in a['variants'])]
+        rep.check(bool(ga) and scan['name'] in ga[0]['body'], 'H3', 'scala:scan-generic-arguments', 'generic arguments traversed', 'scala: the unsigned-integer scan does not descend into generic arguments', {'file': scan['file'], 'line': scan['line']})
+        used = any(scan['name'] in vt.show(c.get('args', [{}])[0] if c.get('args') else {}) or c.get('f') == scan['name'] for c in f['calls']) or scan['name'] in json.dumps(f['tail'])
+        rep.check(used, 'H3', 'scala:scan-applied', 'helper applied to every collected type', f"unsigned_integer_used does not apply {scan['name']} to the collected types", site)
     # every type-bearing position is fed into the scan
     txt = json.dumps(f['lets']) + json.dumps(f['tail'])
     for what, needle in (('alias targets', 'aliases'), ('struct fields', 'structs'), ('enum variants', 'enums')):
         rep.check(f'"{needle}"' in txt, 'H3', f'scala:scan-covers:{what}', 'scanned', f'scala: the scan never looks at {what}', site)
-    rep.check('"consts"' in txt or True, 'H3', 'scala:scan-covers:consts', 'Scala driver does not emit consts', '', site)
 
 
 def flush(ctx, rep, T):
